@@ -106,10 +106,11 @@ impl LibraryPath {
     ///
     /// The last component is the rightmost token separated by `::`.
     pub fn last(&self) -> &str {
-        self.path
-            .rsplit_once(Self::PATH_DELIM)
-            .expect("a valid library path must always have at least one component")
-            .1
+        // a path with a single component has no delimiter: the component is the path itself
+        match self.path.rsplit_once(Self::PATH_DELIM) {
+            Some((_, last)) => last,
+            None => &self.path,
+        }
     }
 
     /// Returns the number of components in the path.
@@ -251,11 +252,13 @@ impl LibraryPath {
 
         // special handling of the first component as it may contain non-alphanumeric characters
         let (path, mut num_components) = if source.as_ref().starts_with(Self::KERNEL_PATH) {
+            // a path which ends before (or inside) the delimiter has no further components; the
+            // empty remainder is rejected below as an empty component
             let split_at = Self::KERNEL_PATH.len() + Self::PATH_DELIM.len();
-            (source.as_ref().split_at(split_at).1, 1)
+            (source.as_ref().get(split_at..).unwrap_or(""), 1)
         } else if source.as_ref().starts_with(Self::EXEC_PATH) {
             let split_at = Self::EXEC_PATH.len() + Self::PATH_DELIM.len();
-            (source.as_ref().split_at(split_at).1, 1)
+            (source.as_ref().get(split_at..).unwrap_or(""), 1)
         } else {
             (source.as_ref(), 0)
         };
